@@ -741,4 +741,109 @@ theorem retries_none (cfg : Cfg) (node : Bytes) (evs : List (Nat × Nat)) :
     unfold retries
     simp [retry, ih.1, ih.2]
 
+/-! ### Reading the Spec's Boolean clauses -/
+
+theorem hopOk_elim (a : Block) (ss : List Block) (l c : UInt8) (hv : a.value = .hop l c)
+    (h : hopOk [a] ss = true) :
+    ∃ c' : UInt8, ss = [⟨a.num, a.flags, a.crc, .hop l c'⟩] ∧ c'.toNat = c.toNat + 1 ∧ c'.toNat ≤ l.toNat := by
+  match ss with
+  | [] => simp [hopOk] at h
+  | _ :: _ :: _ => simp [hopOk] at h
+  | [s] =>
+    obtain ⟨sn, sf, sc, sv⟩ := s
+    cases sv with
+    | hop l' c' =>
+      simp [hopOk, hv] at h
+      obtain ⟨⟨⟨⟨⟨h1, h2⟩, h3⟩, h4⟩, h5⟩, h6⟩ := h
+      exact ⟨c', by simp [h1, h2, h3, h4], h5, by rw [← h4]; exact h6⟩
+    | age _ => simp [hopOk, hv] at h
+    | prevNode _ => simp [hopOk, hv] at h
+    | payload _ => simp [hopOk, hv] at h
+    | other _ _ => simp [hopOk, hv] at h
+
+theorem hopOk_nil_elim (ss : List Block) (h : hopOk [] ss = true) : ss = [] := by
+  match ss with
+  | [] => rfl
+  | _ :: _ => simp [hopOk] at h
+
+theorem ageOk_elim (elLo elHi : Nat) (a : Block) (ss : List Block) (x : Nat) (hv : a.value = .age x)
+    (h : ageOk elLo elHi [a] ss = true) :
+    ∃ y : Nat, ss = [⟨a.num, a.flags, a.crc, .age y⟩] ∧ x + elLo / 1000000 ≤ y ∧ y ≤ x + elHi / 1000000 := by
+  match ss with
+  | [] => simp [ageOk] at h
+  | _ :: _ :: _ => simp [ageOk] at h
+  | [s] =>
+    obtain ⟨sn, sf, sc, sv⟩ := s
+    cases sv with
+    | age y =>
+      simp [ageOk, hv] at h
+      obtain ⟨⟨⟨⟨h1, h2⟩, h3⟩, h4⟩, h5⟩ := h
+      exact ⟨y, by simp [h1, h2, h3], h4, h5⟩
+    | hop _ _ => simp [ageOk, hv] at h
+    | prevNode _ => simp [ageOk, hv] at h
+    | payload _ => simp [ageOk, hv] at h
+    | other _ _ => simp [ageOk, hv] at h
+
+theorem ageOk_nil_elim (elLo elHi : Nat) (ss : List Block) (h : ageOk elLo elHi [] ss = true) : ss = [] := by
+  match ss with
+  | [] => rfl
+  | _ :: _ => simp [ageOk] at h
+
+/-- In every case exactly one previous-node block leaves the node and it names `node`. -/
+theorem prevOk_elim (node : Bytes) (all as ss : List Block) (h : prevOk node all as ss = true) :
+    ∃ s, ss = [s] ∧ s.value = .prevNode node := by
+  match as, ss with
+  | [], [s] => simp [prevOk] at h; exact ⟨s, rfl, h.1⟩
+  | [a], [s] => simp [prevOk] at h; exact ⟨s, rfl, h.1.1.1⟩
+  | [], [] => simp [prevOk] at h
+  | [], _ :: _ :: _ => simp [prevOk] at h
+  | [_], [] => simp [prevOk] at h
+  | [_], _ :: _ :: _ => simp [prevOk] at h
+  | _ :: _ :: _, _ => simp [prevOk] at h
+
+/-- A received previous-node block keeps its number, flags and CRC type. -/
+theorem prevOk_replace_elim (node : Bytes) (all : List Block) (a : Block) (ss : List Block)
+    (h : prevOk node all [a] ss = true) : ss = [⟨a.num, a.flags, a.crc, .prevNode node⟩] := by
+  match ss with
+  | [] => simp [prevOk] at h
+  | _ :: _ :: _ => simp [prevOk] at h
+  | [s] =>
+    obtain ⟨sn, sf, sc, sv⟩ := s
+    simp [prevOk] at h
+    obtain ⟨⟨⟨h1, h2⟩, h3⟩, h4⟩ := h
+    simp [h1, h2, h3, h4]
+
+/-! ### Refusals -/
+
+theorem transform_hop_refuse (node : Bytes) (b : Bundle) (el now : Nat) (l c : UInt8)
+    (hf : firstHop b.blocks = some (l, c)) (hx : c.toNat + 1 > l.toNat) :
+    transform Cfg.fixed node b el now = .error .hopLimit := by
+  have hex := (hopIncrement_exceeded_iff l c).mpr hx
+  unfold transform stepHop
+  rw [hf]
+  simp [hex]
+
+/-! ### What reception keeps -/
+
+theorem processed_filter (known : List Nat) (acc P : Bundle) (hP : processed known acc = some P)
+    (q : Block → Bool) (hq : ∀ x, q x = true → isKnown known x.type = true) :
+    P.blocks.filter q = acc.blocks.filter q := by
+  rw [processed_some known acc P hP]
+  exact filter_kept known q hq acc.blocks
+
+theorem processed_firstAge (known : List Nat) (acc P : Bundle) (hP : processed known acc = some P) :
+    firstAge P.blocks = firstAge acc.blocks := by
+  rw [firstAge_filter, firstAge_filter,
+    processed_filter known acc P hP isAge (known_isAge known)]
+
+theorem processed_firstHop (known : List Nat) (acc P : Bundle) (hP : processed known acc = some P) :
+    firstHop P.blocks = firstHop acc.blocks := by
+  rw [firstHop_filter, firstHop_filter,
+    processed_filter known acc P hP isHop (known_isHop known)]
+
+theorem processed_primary (known : List Nat) (acc P : Bundle) (hP : processed known acc = some P) :
+    P.primary = acc.primary := by
+  rw [processed_some known acc P hP]
+
+
 end Dtn7.Forward.Lemmas
